@@ -565,13 +565,28 @@ class Flow:
                 udefs.append(d)
         if len(uniq) == 1:
             return uniq[0]
-        if getattr(self, "gated", False) and len(uniq) == 2:
-            g = self._gate(udefs[0], udefs[1], node)
-            if g is not None:
-                test, first_is_true = g
-                t = self.expand(test.expr, test, depth - 1, stack)
-                a, b = (uniq[0], uniq[1]) if first_is_true else (uniq[1], uniq[0])
-                return self._call("__gamma__", t, a, b)
+        if getattr(self, "gated", False) and len(uniq) >= 2:
+            items = list(zip(uniq, udefs))
+            merged = True
+            while merged and len(items) > 1:
+                merged = False
+                for i in range(len(items)):
+                    for j in range(i + 1, len(items)):
+                        g = self._gate(items[i][1], items[j][1], node)
+                        if g is None:
+                            continue
+                        test, first_is_true = g
+                        t = self.expand(test.expr, test, depth - 1, stack)
+                        a, b = (items[i][0], items[j][0]) if first_is_true else (items[j][0], items[i][0])
+                        gam = self._call("__gamma__", t, a, b)
+                        items = [x for k, x in enumerate(items) if k not in (i, j)] + [(gam, test)]
+                        merged = True
+                        break
+                    if merged:
+                        break
+            if len(items) == 1:
+                return items[0][0]
+            return self._call("__phi__", *[x for x, _ in items])
         return self._call("__phi__", *uniq)
 
     def _gate(self, d1, d2, use):
